@@ -51,17 +51,24 @@ def workdir():
     lock = open(os.path.join(WORK_ROOT, ".lock"), "w")
     fcntl.flock(lock, fcntl.LOCK_EX)
     try:
+        # artifacts of other trees: keep the few most recent ones (seeded runs alternate between trees), drop the rest
+        others = []
         for d in os.listdir(WORK_ROOT):
             p = os.path.join(WORK_ROOT, d)
             if os.path.isdir(p) and d != th and d not in ("shared", "probe"):
-                # another tree's artifacts: stale unless a live process holds its lock
-                lk = os.path.join(p, ".inuse")
-                try:
-                    with open(lk, "a") as f:
-                        fcntl.flock(f, fcntl.LOCK_EX | fcntl.LOCK_NB)
-                    shutil.rmtree(p, ignore_errors=True)
-                except OSError:
-                    pass
+                others.append((os.path.getmtime(p), p))
+        others.sort(reverse=True)
+        now = time.time()
+        for k, (mt, p) in enumerate(others):
+            if k < 6 and now - mt < 3 * 3600:
+                continue
+            lk = os.path.join(p, ".inuse")
+            try:
+                with open(lk, "a") as f:
+                    fcntl.flock(f, fcntl.LOCK_EX | fcntl.LOCK_NB)
+                shutil.rmtree(p, ignore_errors=True)
+            except OSError:
+                pass
         os.makedirs(wd, exist_ok=True)
     finally:
         fcntl.flock(lock, fcntl.LOCK_UN)
@@ -152,7 +159,7 @@ def replay_bin(profile="dev"):
             if os.path.exists(src):
                 shutil.rmtree(src)
             shutil.copytree(src0, src, ignore=shutil.ignore_patterns("target", "Cargo.lock"))
-            ct = open(os.path.join(src, "Cargo.toml")).read().replace("/verif/kani", ksrc)
+            ct = open(os.path.join(src, "Cargo.toml")).read().replace("/verif/kani", ksrc).replace('"/repo/', '"%s/' % REPO)
             open(os.path.join(src, "Cargo.toml"), "w").write(ct)
             open(os.path.join(src, ".stamp"), "w").write(key0)
         _write_generated(os.path.join(src, "src", "generated.rs"))
@@ -342,7 +349,8 @@ class Ctx:
                 continue
             seen_roles.add(role)
             print("KNOWN-FINDING: property=%s %s -- %s" % (self.pid, role, what))
-        rdir = os.path.join(VERIF, "replays", self.pid)
+        OUT = os.environ.get("VERIF_OUT", VERIF)
+        rdir = os.path.join(OUT, "replays", self.pid)
         vio_paths = []
         if self.violations:
             os.makedirs(rdir, exist_ok=True)
@@ -380,8 +388,8 @@ class Ctx:
             "coverage": cov, "assumptions": self.assumptions, "wall_s": round(wall, 2),
             "violations": len(self.violations),
         }
-        os.makedirs(os.path.join(VERIF, "evidence"), exist_ok=True)
-        with open(os.path.join(VERIF, "evidence", "%s.json" % self.pid), "w") as f:
+        os.makedirs(os.path.join(OUT, "evidence"), exist_ok=True)
+        with open(os.path.join(OUT, "evidence", "%s.json" % self.pid), "w") as f:
             json.dump(ev, f, indent=1, default=str)
         for (role, what, _), p in zip(self.violations, vio_paths):
             print("VIOLATION property=%s replay=%s" % (self.pid, p))
